@@ -311,7 +311,7 @@ fn run(input: &Value) -> CaseOut {
     let obs = json!({
         "executed_schedule": o.sched,
         "trace": trace.iter().map(|(c, m, l)| json!([c, m, l])).collect::<Vec<_>>(),
-        "events": o.events.iter().map(|(k, t, key)| json!([["fetch_start", "fetch_end", "returned"][*k as usize], t, key])).collect::<Vec<_>>(),
+        "events": o.events.iter().map(|(k, t, key)| { let kind = ["fetch_start", "fetch_end", "returned"][*k as usize]; json!([kind, t, key]) }).collect::<Vec<_>>(),
         "fetches_per_key": fetches,
         "seen_by_fetch_target": o.wire.iter().map(|(k, v)| (k.to_string(), *v)).collect::<BTreeMap<_, _>>(),
         "metrics_entries": o.metrics,
@@ -358,8 +358,8 @@ impl Shadow {
         let pc = self.th[i].0;
         let new = match pc {
             Pc::Start => if self.updated.contains(&k) { self.feat("found_on_first_look"); self.ret(i, None) } else { Pc::Checked1 },
-            Pc::Checked1 => match self.running.iter().find(|x| x.0 == k) {
-                Some(x) => { self.feat("shares_mutex"); Pc::Got(x.1) }
+            Pc::Checked1 => match self.running.iter().find(|x| x.0 == k).map(|x| x.1) {
+                Some(m) => { self.feat("shares_mutex"); Pc::Got(m) }
                 None => {
                     if self.updated.contains(&k) { self.feat("fresh_mutex_after_update"); }
                     let m = self.next; self.next += 1; self.running.push((k, m)); Pc::Got(m)
